@@ -53,7 +53,8 @@ def canon(value):
     if isinstance(value, tinycss2.ast.Node):
         return 'T<%s %s>' % (value.type, value.serialize())
     if isinstance(value, (list, tuple)):
-        return '%s[%s]' % (type(value).__name__, ','.join(canon(v) for v in value))
+        name = type(value).__name__
+        return '%s[%s]' % ('seq' if name in ('list', 'tuple') else name, ','.join(canon(v) for v in value))
     if isinstance(value, (set, frozenset)):
         return 'set[%s]' % ','.join(sorted(canon(v) for v in value))
     if isinstance(value, dict):
@@ -501,7 +502,7 @@ def _walk(box, out, keys, depth):
         _walk(inner, out, keys, depth + 1)
 
 
-def _same_text(a, b):
+def _same_text(a, b, abs_tol=0.0):
     """equal up to the last bits of the floats written in them"""
     if a == b:
         return True
@@ -510,7 +511,7 @@ def _same_text(a, b):
         return False
     for x, y in zip(FLOAT_RE.findall(a), FLOAT_RE.findall(b)):
         x, y = float(x), float(y)
-        if abs(x - y) > 1e-6 * max(1.0, abs(x)):
+        if abs(x - y) > max(abs_tol, 1e-6 * max(1.0, abs(x))):
             return False
     return True
 
@@ -529,6 +530,9 @@ def fingerprint(case):
 
 def fingerprint_pair(case):
     """case: dict(a=html, b=html) -> dict(same=bool, diff=first difference)"""
+    # lengths spelled in different units differ in the last bit of the float product; Pango then rounds font
+    # sizes and spacings to 1/1024 pt: a hundredth of a pixel per box is noise, not a different length
+    tol = 0.05 if case.get('kind') == 'units' else 0.0
     fa, keys, pages = fingerprint({'html': case['a']})
     fb, _, _ = fingerprint({'html': case['b']})
     res = dict(same=True, boxes=len(fa), pages=pages, diff=None)
@@ -540,7 +544,7 @@ def fingerprint_pair(case):
             res.update(same=False, diff='box %s vs %s' % (x[0], y[0]))
             return res
         for name, a, b in zip(GEOM, x[1], y[1]):
-            if not _same_text(a, b):
+            if not _same_text(a, b, tol):
                 res.update(same=False, diff='box %s: %s = %s vs %s' % (x[0], name, a, b))
                 return res
         if len(x[2]) != len(y[2]):
